@@ -204,7 +204,9 @@ class UnitsSerializer(Serializer):
             matched_regex = self.regex_for_serialized.fullmatch(data)
             if matched_regex:
                 data = matched_regex.group(1)
-            if data.startswith('nan'):
+            # a nan magnitude followed by the units, as in 'nan gram' (not a
+            # unit whose name merely starts with 'nan', like 'nanometer')
+            if data == 'nan' or data.startswith('nan '):
                 unit_str = data[len('nan'):].strip()
                 unit_data = math.nan * units(unit_str)
             else:
